@@ -80,11 +80,11 @@ Adopt(mrep, erep) == IF mrep.res.k = "scaled" THEN [mrep EXCEPT !.res = erep.res
 Init0 ==
   /\ tid \in 1..Len(Traces) /\ l = 1 /\ prev = Traces[tid].init /\ cstack = <<>> /\ hk = FALSE /\ nchk = 0
   /\ rep = InitRep /\ ctx = <<>> /\ mach = InitMachine /\ sb = "none" /\ ph = FALSE
-  /\ ev = [call |-> "init", out |-> "ok", a |-> A0, lines |-> <<>>, rep |-> InitRep, hooks |-> <<>>, ph |-> FALSE, sh |-> FALSE]
+  /\ ev = [call |-> "init", out |-> "ok", a |-> A0, lines |-> <<>>, rep |-> InitRep, hooks |-> <<>>, ph |-> FALSE, sh |-> FALSE, fault |-> FALSE]
 StepT ==
   /\ l <= Len(Traces[tid].ev)
   /\ LET e == Traces[tid].ev[l]
-         usable == Traces[tid].meta.dp = 0 /\ Traces[tid].meta.exact /\ ~e.sh
+         usable == Traces[tid].meta.dp = 0 /\ Traces[tid].meta.exact /\ ~e.sh /\ ~e.fault
      IN /\ ph' = e.ph                                 \* the model's hook flag for the NEXT call: registered after this one
         /\ LET m == IF usable THEN Predict(e) ELSE Skip IN
            /\ IF m.skip THEN nchk' = nchk
